@@ -85,7 +85,7 @@ fn main() {
             "readloop" => s_conn::run_readloop(&a[3]),
             "conn05" | "conn07" | "conn09" | "conn10" => s_conn::run(&a[3]),
             "clientread" => s_conn::run_clientread(&a[3]),
-            "prefix" => s_parse::run_prefix(&a[3]),
+            "prefix" | "prefixsafe" => s_parse::run_prefix(&a[3]),
             "grammar" => s_parse::run_grammar(&a[3]),
             s => panic!("unknown stream {s}"),
         };
@@ -119,6 +119,7 @@ fn main() {
         "conn10" => s_connexp::gen10(&ctx),
         "clientread" => s_conn::gen_clientread(&ctx),
         "prefix" => s_parse::gen_prefix(&ctx),
+        "prefixsafe" => s_parse::gen_prefixsafe(&ctx),
         "grammar" => s_parse::gen_grammar(&ctx),
         s => panic!("unknown stream {s}"),
     }
